@@ -59,6 +59,22 @@ func (m *vModel) apply(op vOp) {
 			m.arr[op.i] = op.val
 		case 4:
 			m.arr = append(m.arr, op.val)
+		case 5:
+			v := m.arr[op.i]
+			rest := append(m.arr[:op.i:op.i], m.arr[op.i+1:]...)
+			m.arr = append([]int{v}, rest...)
+		case 6: // move the element at index j right before the element at index i
+			next, target := op.i, op.j
+			v := m.arr[target]
+			rest := append(m.arr[:target:target], m.arr[target+1:]...)
+			if target < next {
+				next--
+			}
+			m.arr = append(rest[:next:next], append([]int{v}, rest[next:]...)...)
+		case 7:
+			v := m.arr[op.i]
+			rest := append(m.arr[:op.i:op.i], m.arr[op.i+1:]...)
+			m.arr = append(rest, v)
 		}
 	case vTText:
 		switch op.k {
